@@ -169,6 +169,11 @@ def parse_dump(text):
 
 # ---------------------------------------------------------------------------------- programs for the sweep
 CORPUS = [
+    ("param-shadows-const-defer", 'func f(limit int) int { defer func() { }(); return limit + 1 }\nfunc main() { fmt.Println(f(3), limit) }', "const limit = 100\n"),
+    ("param-shadows-const-closure", 'func f(limit int) int { g := func() int { return limit * 2 }; return g() + limit }\n'
+                                    'func main() { fmt.Println(f(3), limit) }', "const limit = 100\n"),
+    ("local-shadows-const", 'func f() int { limit := 5; limit = limit + 1; return limit }\nfunc main() { fmt.Println(f(), limit) }', "const limit = 100\n"),
+    ("typed-const-plus-literal", 'func f() int32 { return top + 1 }\nfunc main() { fmt.Println(f()) }', "const top int32 = 2147483647\n"),
     ("bool-plus-int", 'func main() { var b bool = true; b = b + 1; fmt.Printf("%T %v\\n", b, b) }', ""),
     ("int-plus-string", 'func main() { var i int = 1; i = i + "2"; fmt.Printf("%T %v\\n", i, i) }', ""),
     ("int8-plus-folded-const", 'func main() { var y int8 = 3; y = y + K; fmt.Printf("%T %v\\n", y, y) }', "const K = 7\n"),
@@ -212,7 +217,10 @@ def gen_program(rng):
               "const KT = %s(%s)" % (rng.choice(["int8", "int16", "int32", "int64"]), rng.choice(["100", "7", "120"]))]
     pre = ["var g int = %d" % rng.randint(0, 9),
            "func bump(n int) int { g = g + n; t := n * 2; t = t + 1; if t > 5 { t = t - KU }; return t + g }",
-           "func mk(a int) func() int { x := a; f := func() int { x = x + 1; return x }; return f }"]
+           "func mk(a int) func() int { x := a; f := func() int { x = x + 1; return x }; return f }",
+           # parameters named like package-level constants, in functions that are not register-eligible (closure / defer)
+           "func shadowc(KU int) int { d := func() int { return KU * 2 }; return d() + KU }",
+           "func shadowd(KT int) int { defer func() { }(); KT = KT + 1; return KT }"]
     body = []
     for i in range(nv):
         k = rng.choice(KINDS)
@@ -221,7 +229,7 @@ def gen_program(rng):
         body.append("var %s %s = %s" % (n, k, lit_for(rng, k)))
     for _ in range(rng.randint(2, 6)):
         n, k = rng.choice(names)
-        form = rng.randint(0, 11)
+        form = rng.randint(0, 12)
         if form == 0:
             body.append("%s = %s + %s" % (n, n, lit_for(rng, rng.choice([k, k, "int", "string", "bool"]))))
         elif form == 1 and k not in ("bool", "string"):
@@ -245,6 +253,8 @@ def gen_program(rng):
             body.append("c%d := mk(%d); c%d(); fmt.Println(c%d())" % (len(body), rng.randint(0, 9), len(body), len(body)))
         elif form == 9:
             body.append("h%d := func() int { g = g + 1; return g }; fmt.Println(h%d(), h%d())" % (len(body), len(body), len(body)))
+        elif form == 12:
+            body.append("fmt.Println(shadowc(%d), shadowd(%d), KU)" % (rng.randint(0, 9), rng.randint(0, 9)))
         elif form == 10 and k not in ("bool", "string", "float64"):
             body.append("%s = %s / %s" % (n, n, rng.choice(["0", "1", "2"])))
         else:
@@ -365,7 +375,9 @@ def run(ck):
         if rp.get("program"):
             progs = [("replay", rp["program"])]
     modes = ["dynamic", "strict", "relaxed"]
-    quick_cfgs = [{"o": 2}, {"o": 3, "registers": "true", "constfold": "true", "globalcache": "true", "alloc": 1}]
+    # -o 3 does not run the peephole pass (only 1 and 2 do): compiler const folding must also meet the optimizer at -o 2
+    quick_cfgs = [{"o": 2, "constfold": "true"}, {"o": 3, "registers": "true", "constfold": "true", "globalcache": "true", "alloc": 1},
+                  {"o": 2}]
     from concurrent.futures import ThreadPoolExecutor
     tasks, srcs = [], {}
     for pi, (name, src) in enumerate(progs):
@@ -374,14 +386,14 @@ def run(ck):
             f.write(src)
         srcs[name] = src
         corpus = name.startswith("corpus") or name == "replay"
-        pmodes = modes if (name == "replay" or not quick or (corpus and pi < 9)) else [modes[pi % 3]]
+        pmodes = modes if (name == "replay" or not quick or (corpus and pi < 13)) else [modes[pi % 3]]
         for mode in pmodes:
             if not quick or name == "replay":
                 cfgs = CONFIGS
             elif corpus:
                 cfgs = quick_cfgs
             else:
-                cfgs = quick_cfgs[:1] + ck.rng.sample(CONFIGS, 1)
+                cfgs = quick_cfgs[:2] + ck.rng.sample(CONFIGS, 1)
             tasks.append((name, path, mode, None))
             for cfg in cfgs:
                 tasks.append((name, path, mode, cfg))
